@@ -5,6 +5,7 @@ Based on Tables in NPSS, and was added to bridge the gap between some of the slo
 implementations.
 """
 import numpy as np
+from scipy.sparse import issparse
 
 from openmdao.components.interp_util.interp_akima import InterpAkima, Interp1DAkima
 from openmdao.components.interp_util.interp_bsplines import InterpBSplines
@@ -569,7 +570,7 @@ class InterpND(object):
         if d_dvalues is not None:
             dy_ddata = np.zeros((vec_size, n_interp, n_cp), dtype=d_dvalues.dtype)
 
-            if d_dvalues.shape[0] == vec_size:
+            if not issparse(d_dvalues):
                 # Akima precomputes derivs at all points in vec_size.
                 dy_ddata[:] = d_dvalues
             else:
